@@ -61,6 +61,12 @@ func (c *concurrencyOperator) Next(ctx context.Context) ([]model.StepVector, err
 	verifhook.Yield("conc.next.recv")
 	r, ok := <-c.buffer
 	verifhook.Yield("conc.next.recvd")
+	// Once the context is cancelled drainBufferOnCancel competes for the
+	// contents of the buffer: a batch or the error may be missing, and a
+	// closed buffer does not mean a complete stream.
+	if err := ctx.Err(); err != nil {
+		return nil, err
+	}
 	if !ok {
 		return nil, nil
 	}
